@@ -8,7 +8,8 @@ export CARGO_NET_OFFLINE=true
 export CARGO_TERM_COLOR=never
 . "$HERE/engine/env.sh" || exit 2
 rc=0
-for pkg in vprim; do
+build_zoo || rc=2
+for pkg in vprim vrt; do
   build_bin "$pkg" || rc=2
 done
 exit $rc
